@@ -10,7 +10,14 @@ mkdir -p /tmp/seedrun_v && cp known_findings.txt /tmp/seedrun_v/
 for s in "$@"; do
   git -C $R checkout -q -- . ; git -C $R clean -fdq
   if ! git -C $R apply /verif/refactors/$s/patch.diff 2>/dev/null; then echo "== $s: APPLYFAIL"; continue; fi
-  out=$(VERIF_DIR=/tmp/seedrun_v bin/mosverif all -repo $R 2>&1 | grep "^VIOLATION" | sed 's/ replay=.*//; s/VIOLATION property=//' | tr '\n' ' ')
+  raw=$(VERIF_DIR=/tmp/seedrun_v bin/mosverif all -repo $R 2>&1)
+  if echo "$raw" | grep -q "^load failed"; then
+    # the change applies but the tree does not type-check any more (e.g. a fix: commit introduced a use of something the
+    # change renames): nothing was analysed — never report that as silent
+    git -C $R checkout -q -- . ; git -C $R clean -fdq
+    echo "== $s: LOADFAIL"; continue
+  fi
+  out=$(echo "$raw" | grep "^VIOLATION" | sed 's/ replay=.*//; s/VIOLATION property=//' | tr '\n' ' ')
   git -C $R checkout -q -- . ; git -C $R clean -fdq
   echo "== $s: ${out:-silent}"
 done
